@@ -106,7 +106,22 @@ def has_dup(items) -> bool:
     return len(names) != len(set(names))
 
 
+_EXP_CACHE: dict = {}
+
+
 def expected(case):
+    """Memoised per case object (oracle, non-triviality rule and tags all need it)."""
+    hit = _EXP_CACHE.get(id(case))
+    if hit is not None and hit[0] is case:
+        return hit[1]
+    r = _expected(case)
+    if len(_EXP_CACHE) > 50000:
+        _EXP_CACHE.clear()
+    _EXP_CACHE[id(case)] = (case, r)
+    return r
+
+
+def _expected(case):
     """Declarative expectation: ('ok', text) | ('err', class) and a dict of facts about the case."""
     tpls = {}
     for name, tops in case["templates"]:
@@ -418,5 +433,184 @@ def gen_chain(rng):
     return {"templates": tpls, "leaf": "t0", "data": data, "kind": kind}
 
 
+def chain_of(case):
+    """(prefix nodes, [templates leaf first]) when the case is a well-formed chain reached through extends, else None"""
+    tpls = {}
+    for name, tops in case["templates"]:
+        tpls.setdefault(name, tops)
+    cur = tpls.get(case["leaf"])
+    if cur is None:
+        return None
+    pre = []
+    for t in cur:
+        if t[0] == "x":
+            break
+        pre.append(t)
+    else:
+        return None
+    chain, visited = [], set()
+    while True:
+        exts = [t[1] for t in cur if t[0] == "x"]
+        if len(exts) > 1 or has_dup([t for t in cur if t[0] != "x"]):
+            return None
+        chain.append(cur)
+        if not exts:
+            return pre, chain
+        if exts[0] in visited or exts[0] not in tpls:
+            return None
+        visited.add(exts[0])
+        cur = tpls[exts[0]]
+
+
+class SpecStream(_InheritStream):
+    """The Lean *specification* (`flatten`, not the block-stack model) against the implementation, on the
+    well-formed chains of the pool and of the random generator."""
+
+    name = "spec"
+
+    def cases(self, ctx):
+        out = [c for c in PoolStream().cases(ctx) if chain_of(c) is not None]
+        rng = ctx.rng_for("spec")
+        n = ctx.scale(600, 8000)
+        tries = 0
+        while n > 0 and tries < 200000:
+            tries += 1
+            c = gen_chain(rng)
+            if c["kind"] == "plain" and chain_of(c) is not None:
+                out.append(c)
+                n -= 1
+        return out
+
+    def line(self, case):
+        pre, chain = chain_of(case)
+        return ["flatten", LIMIT, chain, case["data"]]
+
+    def canon_model(self, case, mobs):
+        mobs = super().canon_model(case, mobs)
+        pre, _ = chain_of(case)
+        if isinstance(mobs, dict) and "ok" in mobs and pre:
+            # nodes before the extends tag are rendered first, with no block stacks
+            head, _ = expected({"templates": [["p", pre]], "leaf": "p", "data": case["data"]})
+            if head[0] == "ok":
+                return {"ok": head[1] + mobs["ok"]}
+            return {"err": head[1]}
+        return mobs
+
+    def impl(self, case):
+        obs = super().impl(case)
+        return obs
+
+
+def nest(names, inner, req=False):
+    items = inner
+    for n in reversed(names):
+        items = [B(n, items, req)]
+    return items
+
+
+class DeepStream(_InheritStream):
+    """Blocks nested across templates: the root nests r1..rk, the child overrides the innermost one with a nest
+    of c1..cm; the dynamic nesting k+m goes up to and beyond context_depth_limit (static nesting of one template is
+    capped at 30 by the parser)."""
+
+    name = "deep"
+    exhaustive = True
+    parallel = False
+
+    def cases(self, ctx):
+        out = []
+        for k in (1, 5, 14, 15, 16, 17, 25):
+            for m in range(0, 28) if ctx.tier == "thorough" else (0, 3, 13, 14, 15, 16, 17, 18, 27):
+                if k + m > 45:
+                    continue
+                root = nest([f"r{i}" for i in range(1, k + 1)], [T("R")])
+                child_inner = [T("C"), ["s"]] if (k + m) % 2 == 0 else [T("C")]
+                # the child overrides the innermost root block r_k with m further levels
+                child = [["x", "t1"]] + nest([f"r{k}"] + [f"c{i}" for i in range(1, m + 1)], child_inner)
+                out.append({"templates": [["t0", child], ["t1", root]], "leaf": "t0", "data": []})
+        return out
+
+    def nontrivial(self, case, obs):
+        return True
+
+    def tags(self, case, obs):
+        exp, facts = expected(case)
+        return [f"depth{min(facts['maxdepth'] // 10 * 10, 40)}+", "ok" if "ok" in obs else obs["err"]]
+
+
+# ---------------------------------------------------------------------------------------------
+def src_tokens(toks) -> str:
+    out = []
+    for t in toks:
+        if t[0] == "t":
+            out.append(t[1])
+        elif t[0] == "o":
+            out.append("{% block " + t[1] + (" required" if t[2] else "") + " %}")
+        else:
+            out.append("{% endblock" + (" " + t[1] if t[1] else "") + " %}")
+    return "".join(out)
+
+
+def expected_tokens(toks):
+    """The property on a token sequence: a named endblock must name the block it closes."""
+    stack = []
+    for t in toks:
+        if t[0] == "o":
+            stack.append(t[1])
+        elif t[0] == "c":
+            if not stack:
+                return "syntax"
+            name = stack.pop()
+            if t[1] is not None and t[1] != name:
+                return "mismatch"
+    return "syntax" if stack else "ok"
+
+
+class EndblockStream(Stream):
+    name = "endblock"
+    exhaustive = True
+    parallel = True
+
+    ALPHABET = [["t", "x"], ["o", "a", False], ["o", "b", False], ["o", "a", True], ["c", None], ["c", "a"], ["c", "b"]]
+
+    def cases(self, ctx):
+        out = []
+        for n in range(1, ctx.scale(5, 6) + 1):
+            for seq in itertools.product(self.ALPHABET, repeat=n):
+                if not any(t[0] == "c" for t in seq):
+                    continue
+                out.append({"toks": [list(t) for t in seq]})
+        return out
+
+    def impl(self, case):
+        from liquid import Environment
+
+        env = Environment(extra=True)
+        try:
+            return {"ok": env.from_string(src_tokens(case["toks"])).render()}
+        except Exception as e:
+            return {"err": type(e).__name__}
+
+    def line(self, case):
+        return ["endblock", LIMIT, case["toks"]]
+
+    def oracle(self, case, obs):
+        exp = expected_tokens(case["toks"])
+        got = obs.get("err", "ok")
+        if exp == "mismatch" and got != "TemplateInheritanceError":
+            return (f"endblock|mismatch|got={got}", f"a mismatched endblock name was not rejected: {src_tokens(case['toks'])!r} -> {obs}")
+        if exp != "mismatch" and got == "TemplateInheritanceError":
+            return ("endblock|false-rejection", f"matching endblock names rejected: {src_tokens(case['toks'])!r}")
+        if exp == "syntax" and got != "LiquidSyntaxError":
+            return (f"endblock|unbalanced|got={got}", f"unbalanced block tags accepted: {src_tokens(case['toks'])!r} -> {obs}")
+        return None
+
+    def nontrivial(self, case, obs):
+        return any(t[0] == "c" and t[1] for t in case["toks"])
+
+    def tags(self, case, obs):
+        return [expected_tokens(case["toks"]), "ok" if "ok" in obs else obs["err"]]
+
+
 def streams(ctx):
-    return [PoolStream(), GraphStream(), ChainStream()]
+    return [PoolStream(), GraphStream(), ChainStream(), SpecStream(), DeepStream(), EndblockStream()]
